@@ -679,6 +679,13 @@ def run(tier):
     chk.adopt('C07.R8', 'leaf texts cross the process boundary verbatim: '
               'the pickle writer and reader agree on tags, lengths (in '
               'bytes), field order and codec (shared with C12.R1)', sub12)
+    from .. import genreuse
+    chk.guard(genreuse.rule, chk, prog, 'C07.R9',
+              'no one-shot iterator over rendered text or over the '
+              'expressions is traversed twice on one path',
+              {'nodeio': None, 'nodes': None},
+              'the rendering written afterwards is empty or incomplete, '
+              'while the other renderings are complete')
     extra = None
     if tier == 'thorough':
         from .. import selftest
